@@ -344,7 +344,7 @@ impl Wal {
         let segment_num = Self::find_latest_segment(dir)?;
         let segment_path = dir.join(format!("wal.{:06}", segment_num));
 
-        let segment = if segment_path.exists() {
+        let mut segment = if segment_path.exists() {
             WalSegment::open(&segment_path, segment_num)?
         } else {
             WalSegment::create(&segment_path, segment_num)?
@@ -368,6 +368,21 @@ impl Wal {
                 page_index.insert((header.file_id, header.page_no), (segment_num, offset));
                 offset += (WAL_FRAME_HEADER_SIZE + PAGE_SIZE) as u64;
             }
+
+            // `segment` is the handle new frames are appended through. It was opened
+            // with its cursor at 0, which would overwrite the existing frames. Continue
+            // right after the last valid frame, dropping any torn tail so that stale
+            // bytes behind it can never be replayed after the frames written from now on.
+            segment
+                .writer
+                .get_mut()
+                .set_len(offset)
+                .wrap_err("failed to trim WAL segment to its valid frames")?;
+            segment
+                .writer
+                .seek(SeekFrom::Start(offset))
+                .wrap_err("failed to seek to end of WAL segment")?;
+            segment.offset = offset;
         }
 
         let frame_count = page_index.len() as u32;
